@@ -888,6 +888,14 @@ class Interp:
                     len(items), len(target.elts), target.lineno))
             for t, i in zip(target.elts, items):
                 self.assign(t, i, fr)
+        elif isinstance(target, ast.Subscript) and isinstance(target.slice, ast.Slice):
+            obj = self.eval(target.value, fr)
+            lo = self.eval(target.slice.lower, fr) if target.slice.lower is not None else NONE
+            hi = self.eval(target.slice.upper, fr) if target.slice.upper is not None else NONE
+            if not (isinstance(obj, ListV) and not getattr(obj, 'lazy', False) and isinstance(lo, Const) and isinstance(hi, Const)
+                    and target.slice.step is None):
+                raise Undecided('slice assignment on %r (line %d)' % (obj, target.lineno))
+            obj.items[lo.v:hi.v] = self.iterate(v, target)
         elif isinstance(target, ast.Subscript):
             obj = self.eval(target.value, fr)
             idx = self.eval(target.slice, fr)
@@ -1015,6 +1023,12 @@ class Interp:
                 return Const(obj.name)
             if attr == '__bases__' and obj.name == 'object':
                 return TupleV([])
+            if attr in ('__mro__', '__bases__') and getattr(self, 'concrete_context', False):
+                lin_ = self._type_mro(obj.name)
+                if lin_ is not None:
+                    if attr == '__mro__':
+                        return TupleV([TypeV(x) for x in lin_])
+                    return TupleV([TypeV(x) for x in self._type_bases(obj.name)])
             if attr in ('__module__', '__qualname__', '__name__'):
                 return SymStr('%s.%s' % (obj.name, attr), nonempty=True)
             if attr in ('__repr__', '__str__', '__format__'):
@@ -1094,6 +1108,8 @@ class Interp:
             if isinstance(obj, ValueV) and attr in obj.extra:
                 return obj.extra[attr]
             if ('method:' + attr) in self.prims:
+                return BoundV(obj, attr)
+            if isinstance(obj, Sym) and obj.typ == 'lock':
                 return BoundV(obj, attr)
             if isinstance(obj, Const) and isinstance(obj.v, (str, bytes)) and attr in _PURE_STR_METHODS:
                 return BoundV(obj, attr)
@@ -1683,6 +1699,15 @@ class Interp:
             r = hook(self, obj, args, kwargs, node)
             if r is not NotImplemented:
                 return r
+        if isinstance(obj, Sym) and obj.typ == 'lock':
+            if name == 'acquire':
+                return TRUE
+            if name in ('release', '__exit__'):
+                return NONE
+            if name == '__enter__':
+                return TRUE
+            if name == 'locked':
+                return FALSE
         if isinstance(obj, ListV):
             if name == 'append':
                 obj.items.append(args[0])
@@ -1900,6 +1925,42 @@ class Interp:
             w |= {'_CommentedValue', '_TrailingCommentedValue'}
             self._wrapper_cls_names = w
         return w
+
+    def _type_bases(self, name):
+        import builtins as _bi
+        for m_ in self.repo.modules.values():
+            ci = m_.classes.get(name)
+            if ci is not None:
+                return [b.split('.')[-1] for b in ci.bases] or ['object']
+        cls_ = getattr(_bi, name, None)
+        if isinstance(cls_, type):
+            return [b.__name__ for b in cls_.__bases__]
+        return None
+
+    def _type_mro(self, name, _depth=0):
+        """linearisation of a class given by name: package classes through their bases (single inheritance chains and simple
+        diamonds: depth-first, duplicates keep their last position), builtins by CPython's own __mro__; None when unknown"""
+        import builtins as _bi
+        if _depth > 8:
+            return None
+        cls_ = getattr(_bi, name, None)
+        if isinstance(cls_, type) and not self._is_package_class(name):
+            return [c.__name__ for c in cls_.__mro__]
+        bases_ = self._type_bases(name)
+        if bases_ is None:
+            return None
+        out = [name]
+        for b in bases_:
+            sub_ = self._type_mro(b, _depth + 1)
+            if sub_ is None:
+                return None
+            out.extend(sub_)
+        seen_, lin_ = set(), []
+        for x in reversed(out):
+            if x not in seen_:
+                seen_.add(x)
+                lin_.append(x)
+        return list(reversed(lin_))
 
     def _is_package_class(self, name):
         return any(name in m_.classes for m_ in self.repo.modules.values())
@@ -2164,6 +2225,10 @@ class Interp:
         h = getattr(self, 'p_' + name.replace('.', '_'), None) if '.' in name and name.startswith('sys.') else getattr(self, 'p_' + name, None)
         if h is None and name in ('OrderedDict', 'dict', 'list', 'tuple', 'set', 'frozenset', 'str', 'int', 'float', 'bool') and getattr(self, 'concrete_context', False):
             return self.construct(TypeV(name), list(args), dict(kwargs), node)
+        if h is None and name in ('threading.Lock', 'threading.RLock', 'Lock', 'RLock'):
+            # a lock: in the sequential interpretation every acquire succeeds at once and nothing else happens
+            self._nlocks = getattr(self, '_nlocks', 0) + 1
+            return Sym('threading.Lock()#%d' % self._nlocks, 'lock')
         if h is None and getattr(self, 'concrete_context', False):
             import builtins as _bi
             cls_ = getattr(_bi, name, None)
@@ -2414,8 +2479,12 @@ class Interp:
         return ListV([Sym('sorted%d(%s)' % (i, tag)) for i in range(len(items))])
 
     def p_iter(self, a, k, n):
-        if getattr(self, 'concrete_context', False) and isinstance(a[0], (ListV, TupleV, SetV, DictV)):
+        if isinstance(a[0], IterV) or (isinstance(a[0], ListV) and getattr(a[0], 'lazy', False)):
+            return a[0]         # an iterator is its own iterator
+        if isinstance(a[0], (ListV, TupleV, SetV, DictV)):
             return IterV(self.iterate(a[0], n))
+        if isinstance(a[0], ValueV) and a[0].elems is not None:
+            return IterV(list(a[0].elems))
         return a[0]
 
     def p_next(self, a, k, n):
